@@ -51,6 +51,8 @@ FIRST_MISSED = {
     "C18-8": "new sub-check `history_transition` (one FatigueData object: analyse, set the transition, analyse again == fresh object)",
     "C01-9": "every partition is fed a second time with each chunk in another container kind / dtype (float64, int64, list, float32, Series)",
     "C02-8": "the same signal at another order of magnitude (exact scaling by 2^200, 2^520, 2^-200) in `reference_random` / `fkm_random`",
+    "C06-7": "new sub-check `sb_retry` (Seeger-Beste with K_p 20-50 at rtol = tol = 1e-10 on ramps of 50-120 loads, where the per-element retry of the vectorised secant is entered)",
+    "C20-7": "new sub-check `sparse_sets` (widely spread node / element ids, shared nodes, sets of 24-60 members stored in scrambled order)",
     "C02-1": "signal kind `decimal` (values single precision cannot represent, with exact ties)",
     "C02-3": "operator `near_plateau` (neighbour 1 ulp / 1e-12 / 1e-9 away: no plateau)",
     "C03-3": "new sub-check `nan_chunked` (NaN clause combined with chunked feeding)",
@@ -75,6 +77,7 @@ FIRST_MISSED = {
 
 
 SEED_DEPENDENT = {
+    "C20-1": "mixed meshes whose mean node count equals that of the lowest-id element are constructed on purpose after added generator classes had shifted the random stream",
     "C20-2": "a node set and an element set with the same name on one geometry, both filtered through one held importer in both orders, is now constructed on purpose (about 30 cases per run instead of 3-7); detected at seeds 1-3",
     "C14-5": "nested source classes (coarse classes lying over several fine ones) drawn in half of the 1-D cases after added generator classes had shifted the random stream; detected at seeds 1-3",
 }
